@@ -102,6 +102,9 @@ class Kit:
         v = gen.rdm_vectors(self.rng, n_rdm, n_cond, 'eucl' if positive else 'neg')
         if nan:
             v[:, [1, 4]] = np.nan
+        elif self.variant == 3 and positive:
+            # variant 3 also stores the (non-negative, whole-number) dissimilarities in an unsigned integer array
+            v = np.round(v * 10).astype(np.uint16)
         return RDMs(v, dissimilarity_measure='squared euclidean', descriptors={'exp': 'e', 'w0': 1.5},
                     rdm_descriptors={'subj': gen.wrap([f's{i % 2}' for i in range(n_rdm)], self.cont),
                                      'uid': gen.wrap(list(range(10, 10 + n_rdm)), self.cont),
@@ -200,7 +203,7 @@ def recipes():
     R['inverse_permute_rdms'] = lambda k: ([rsatoolbox.rdm.rdms.permute_rdms(k.rdms(), np.array([2, 0, 1, 3, 5, 4]))], {})
     R['rdms_from_dict'] = lambda k: ([k.rdms().to_dict()], {})
     for t in ('rank', 'sqrt', 'positive', 'minmax', 'geodesic'):
-        R[f'{t}_transform'] = (lambda k, t=t: ([k.rdms(positive=t not in ('positive', 'sqrt') or k.variant == 0)], {}))
+        R[f'{t}_transform'] = (lambda k, t=t: ([k.rdms(positive=t not in ('positive', 'sqrt') or k.variant in (0, 3))], {}))
     R['geotopological_transform'] = lambda k: ([k.rdms(), 0.1, 0.9], {})
     R['transform'] = lambda k: ([k.rdms(), lambda x: x ** 2], {})
     R['from_partials'] = lambda k: ([[k.rdms(2).subset_pattern('cond', ['c0', 'c1', 'c3']),
